@@ -10,7 +10,8 @@ def _call(i):
     try:
         return _FN(_ITEMS[i])
     except Exception as e:       # noqa
-        return RuntimeError("%s\n%s" % (e, traceback.format_exc()))
+        tb = traceback.format_exc()
+        return RuntimeError("%s :: ...%s" % (e, tb[-1400:]))
 
 
 def map_entries(fn, items, procs=None):
@@ -46,31 +47,69 @@ def merge_out(a, b):
     return a
 
 
-def explore_entries(run_entry, entries, frontier=3):
-    """run_entry(entry, prefixes, stop_pending) -> summary dict with key "pending".
-    Phase 1 expands every entry until `frontier` x workers subtrees are pending; phase 2 exhausts the
-    subtrees on all cores.  Returns one merged summary per entry (same order)."""
+def _job(j):
+    i, prefixes, budget = j
+    try:
+        return _RUN(_ENTRIES[i], prefixes, budget)
+    except Exception as e:       # noqa
+        tb = traceback.format_exc()
+        return RuntimeError("%s :: ...%s" % (e, tb[-1400:]))
+
+
+def explore_entries(run_entry, entries, budget=20.0):
+    """run_entry(entry, prefixes, time_budget) -> summary dict with key "pending" (unexplored subtrees).
+    Dynamic work sharing: a worker explores for `budget` seconds, then returns what is left of its subtree as
+    new jobs, so that one large entry spreads over all cores.  Returns one merged summary per entry."""
+    global _RUN, _ENTRIES
+    _RUN = run_entry
+    _ENTRIES = list(entries)
+    import time as _t
     nproc = int(os.environ.get("VERIF_JOBS", "0")) or min(14, os.cpu_count() or 4)
-    target = max(2, (frontier * nproc) // max(1, len(entries))) if nproc > 1 else None
-    first = map_entries(lambda e: run_entry(e, None, target), entries)
-    merged = []
-    jobs = []
-    for i, (e, out) in enumerate(zip(entries, first)):
-        if isinstance(out, Exception) or out is None:
-            merged.append(out)
-            continue
-        pend = out.pop("pending", [])
-        merged.append(out)
-        for p in pend:
-            jobs.append((i, p))
-    if jobs:
-        second = map_entries(lambda j: run_entry(entries[j[0]], [j[1]], None), jobs)
-        for (i, _), out in zip(jobs, second):
-            if isinstance(out, Exception) or out is None:
-                if isinstance(merged[i], dict):
-                    merged[i].setdefault("inconclusive", []).append("worker failed: %r" % (out,))
-                continue
-            out.pop("pending", None)
-            if isinstance(merged[i], dict):
-                merge_out(merged[i], out)
+    merged = [None] * len(_ENTRIES)
+    jobs = [(i, None, budget) for i in range(len(_ENTRIES))]
+    if nproc <= 1:
+        while jobs:
+            j = jobs.pop()
+            out = _job((j[0], j[1], None))
+            _absorb(merged, jobs, j[0], out, budget)
+        return merged
+    ctx = mp.get_context("fork")
+    with ctx.Pool(processes=nproc) as pool:
+        active = []
+        while jobs or active:
+            while jobs and len(active) < nproc * 2:
+                j = jobs.pop()
+                active.append((j[0], pool.apply_async(_job, (j,))))
+            still = []
+            progressed = False
+            for i, h in active:
+                if h.ready():
+                    progressed = True
+                    _absorb(merged, jobs, i, h.get(), budget)
+                else:
+                    still.append((i, h))
+            active = still
+            if not progressed:
+                _t.sleep(0.05)
     return merged
+
+
+def _absorb(merged, jobs, i, out, budget):
+    if isinstance(out, Exception) or out is None:
+        if isinstance(merged[i], dict):
+            merged[i].setdefault("inconclusive", []).append("worker failed: %r" % (out,))
+        elif merged[i] is None:
+            merged[i] = out
+        return
+    pend = out.pop("pending", [])
+    if merged[i] is None or isinstance(merged[i], Exception):
+        merged[i] = out
+    else:
+        merge_out(merged[i], out)
+    # split what is left into a few jobs
+    if pend:
+        k = max(1, min(6, len(pend)))
+        for c in range(k):
+            chunk = pend[c::k]
+            if chunk:
+                jobs.append((i, chunk, budget))
